@@ -11,6 +11,8 @@ import (
 	"os/exec"
 	"path/filepath"
 	"regexp"
+	"runtime/debug"
+	"runtime/pprof"
 	"sort"
 	"strconv"
 	"strings"
@@ -31,6 +33,7 @@ func main() {
 	if d := os.Getenv("VERIF_REPO"); d != "" {
 		repoDir = d
 	}
+	debug.SetGCPercent(300) // the interpreter allocates heavily; memory is plentiful
 	switch os.Args[1] {
 	case "check":
 		os.Exit(cmdCheck(os.Args[2:]))
@@ -77,6 +80,7 @@ func cmdCheck(args []string) int {
 	maxPaths := fs.Int("max-paths", 200000, "path budget per instance")
 	budget := fs.Duration("budget", 0, "time budget for exploration (0 = none)")
 	noEvidence := fs.Bool("no-evidence", false, "do not write the evidence file")
+	cpuprof := fs.String("cpuprofile", "", "write a CPU profile")
 	if len(args) < 1 {
 		fmt.Fprintln(os.Stderr, "check: property id required")
 		return 2
@@ -144,6 +148,11 @@ func cmdCheck(args []string) int {
 	var deadline time.Time
 	if *budget > 0 {
 		deadline = time.Now().Add(*budget)
+	}
+	if *cpuprof != "" {
+		f, _ := os.Create(*cpuprof)
+		pprof.StartCPUProfile(f)
+		defer pprof.StopCPUProfile()
 	}
 	t1 := time.Now()
 	fatal := func() (f interface{}) {
